@@ -188,7 +188,12 @@ impl SwiftField for Field59A {
         // Check if first line is account (/...)
         if lines[0].starts_with('/') {
             let identifier = &lines[0][1..];
-            if !identifier.is_empty() && identifier.len() <= 34 {
+            if identifier.is_empty() {
+                return Err(ParseError::InvalidFormat {
+                    message: "Field 59 account after '/' cannot be empty".to_string(),
+                });
+            }
+            if identifier.len() <= 34 {
                 parse_swift_chars(identifier, "Field 59A account")?;
                 account = Some(identifier.to_string());
                 bic_line_idx = 1;
@@ -249,7 +254,12 @@ impl SwiftField for Field59NoOption {
         // Check for account
         if lines[0].starts_with('/') {
             let identifier = &lines[0][1..];
-            if !identifier.is_empty() && identifier.len() <= 34 {
+            if identifier.is_empty() {
+                return Err(ParseError::InvalidFormat {
+                    message: "Field 59 account after '/' cannot be empty".to_string(),
+                });
+            }
+            if identifier.len() <= 34 {
                 parse_swift_chars(identifier, "Field 59 account")?;
                 account = Some(identifier.to_string());
                 start_idx = 1;
